@@ -260,7 +260,7 @@ def replay(w, ctx):
 def floors(m, tier):
     out = []
     c, cov = m['counters'], m['cover']
-    need = 1000 if tier == 'quick' else 15000
+    need = 1000 if tier == 'quick' else 10000
     if len(m['distinct']) < need:
         out.append('only %d non-trivial histories' % len(m['distinct']))
     if c.get('repeat_comparisons', 0) < need:
